@@ -1006,6 +1006,82 @@ case_gr_size(long p)
     followup(PATH, "gr-size", 0);
 }
 
+/* ================================================================== the highest reference number is a legal one */
+/* a Vdata / Vgroup stored under reference number 65534 or 65535 (the counter reaches it when an application has used the
+   number just below) is listed by VSlone / Vlone like any other, also by the count-only call, and stops being listed once a
+   Vgroup holds it */
+static void
+case_lone_highref(long p)
+{
+    uint16 below = p & 1 ? 65534 : 65533; /* number used by the application; the next new object gets below+1 */
+    int    isvg  = (int)(p >> 1) & 1;
+    snprintf(g_case, sizeof g_case, "a lone %s under reference number %u, listed by %s", isvg ? "Vgroup" : "Vdata", below + 1, isvg ? "Vlone" : "VSlone");
+    mc_set_case("%s", g_case);
+    vfs_remove_file(PATH);
+    int32 f = Hopen(PATH, DFACC_CREATE, 16);
+    uint8 b[4] = {1, 2, 3, 4};
+    Hputelement(f, 1000, below, b, 4);
+    Vstart(f);
+    int32 ref;
+    if (isvg) {
+        int32 g = Vattach(f, -1, "w");
+        Vsetname(g, "high");
+        ref = VQueryref(g);
+        Vdetach(g);
+    }
+    else {
+        int32 v = VSattach(f, -1, "w");
+        int16 x = 5;
+        VSfdefine(v, "a", DFNT_INT16, 1);
+        VSsetfields(v, "a");
+        VSwrite(v, (uint8 *)&x, 1, FULL_INTERLACE);
+        ref = VSQueryref(v);
+        VSdetach(v);
+    }
+    if (ref != below + 1) {
+        /* the library chose another free number: nothing to show here */
+        mc_count("lone_highref_other_number", 1);
+        Vend(f);
+        Hclose(f);
+        return;
+    }
+    for (int phase = 0; phase < 3; phase++) {
+        if (phase == 1) { /* after close / reopen */
+            Vend(f);
+            if (Hclose(f) == FAIL || (f = Hopen(PATH, DFACC_RDWR, 0)) == FAIL) {
+                expect(MUST_OK, 1, "reopen");
+                return;
+            }
+            Vstart(f);
+        }
+        if (phase == 2) { /* a Vgroup (with a low number) takes it in: no longer lone */
+            int32 g = Vattach(f, -1, "w");
+            Vsetname(g, "holder");
+            Vaddtagref(g, isvg ? DFTAG_VG : DFTAG_VH, ref);
+            Vdetach(g);
+        }
+        int32 ids[4] = {-1, -1, -1, -1};
+        int32 n0 = isvg ? Vlone(f, NULL, 0) : VSlone(f, NULL, 0), n = isvg ? Vlone(f, ids, 4) : VSlone(f, ids, 4);
+        int   listed = 0;
+        for (int i = 0; i < 4 && i < n; i++)
+            if (ids[i] == ref)
+                listed = 1;
+        int want = phase < 2; /* phase 2: only "holder" is lone (for Vgroups), nothing (for Vdatas) */
+        int wantn = phase < 2 ? 1 : isvg ? 1 : 0;
+        if (n0 != n || n != wantn || listed != want) {
+            char sig[100];
+            snprintf(sig, sizeof sig, "wrapped-or-wrong-value:%s:reference-number-%d", isvg ? "Vlone" : "VSlone", (int)ref);
+            mc_violation(sig, "%s: %s: count-only call %d, call with array %d (expected %d), the object is %slisted (expected: %slisted)", g_case,
+                         phase == 0 ? "same session" : phase == 1 ? "after reopen" : "after a Vgroup took it in", (int)n0, (int)n, wantn, listed ? "" : "not ", want ? "" : "not ");
+            break;
+        }
+    }
+    Vend(f);
+    Hclose(f);
+    check_file(PATH, "lone-highref");
+    mc_count("lone_highref_cases", 1);
+}
+
 /* ================================================================== G. open files */
 static void
 case_open_files(long p)
@@ -1212,6 +1288,7 @@ static const family_t FAM[] = {
     {"gr-ncomp", case_gr_ncomp, 7, 7},
     {"gr-size", case_gr_size, 6, 6},
     {"open-files", case_open_files, 10, 10},
+    {"lone-objects-highest-refs", case_lone_highref, 4, 4},
     {"h-args", case_h_args, 8, 8},
 };
 #define NFAM ((int)(sizeof FAM / sizeof FAM[0]))
